@@ -65,6 +65,8 @@ def obj_binary(name):
         return lambda x: onemax(x) + 1e12
     if name == "offset6":  # integer-valued, differences of 1 in 1e6 (within numpy.isclose's default tolerance)
         return lambda x: onemax(x) + 1e6
+    if name == "view":    # returns a VIEW of its argument (the first locus): the caller's array must not be written to
+        return lambda x: x[:, 0] if isinstance(x, np.ndarray) else np.asarray(x)[:, 0]
     if name == "inf":     # the best values are infinite (1/error with error 0, log(0)): +inf above, -inf below
         return lambda x: np.where(onemax(x) >= 7, np.inf, np.where(onemax(x) <= 2, -np.inf, onemax(x)))
     raise KeyError(name)
@@ -89,6 +91,8 @@ def obj_float(name):
         return lambda x: np.round(sphere(x) * 8.0) / 8.0 + 1e12
     if name == "inf":
         return lambda x: np.where(sphere(x) >= 9.0, np.inf, np.where(sphere(x) <= 1.5, -np.inf, sphere(x)))
+    if name == "view":    # returns a VIEW of its argument (the first coordinate)
+        return lambda x: x[:, 0] if isinstance(x, np.ndarray) else np.asarray(x)[:, 0]
     if name == "tiny":    # an objective in very small units: every improvement is far below 1e-8
         return lambda x: sphere(x) * 1e-12
     raise KeyError(name)
